@@ -147,17 +147,38 @@ where
         let ast = ast_validation.ast();
         // Check that StorageT is big enough to hold RIdx/PIdx/SIdx/TIdx values; after these
         // checks we can guarantee that things like RIdx(ast.rules.len().as_()) are safe.
-        if ast.rules.len() > num_traits::cast(StorageT::max_value()).unwrap() {
+        //
+        // Beyond what the AST contains we add: a start rule with one production; the EOF token;
+        // and, if Eco's implicit tokens are in use, two more rules with one production per
+        // implicit token plus two, and a reference to the implicit rule after every token.
+        let max: usize = num_traits::cast(StorageT::max_value()).unwrap();
+        let implicit_tokens = match ast_validation.yacc_kind() {
+            YaccKind::Eco => ast.implicit_tokens.as_ref().map(|x| x.len()),
+            _ => None,
+        };
+        let (extra_rules, extra_prods) = match implicit_tokens {
+            Some(n) => (3, n + 3),
+            None => (1, 1),
+        };
+        if ast.rules.len() + extra_rules > max {
             panic!("StorageT is not big enough to store this grammar's rules.");
         }
-        if ast.tokens.len() > num_traits::cast(StorageT::max_value()).unwrap() {
+        if ast.tokens.len() + 1 > max {
             panic!("StorageT is not big enough to store this grammar's tokens.");
         }
-        if ast.prods.len() > num_traits::cast(StorageT::max_value()).unwrap() {
+        if ast.prods.len() + extra_prods > max {
             panic!("StorageT is not big enough to store this grammar's productions.");
         }
         for p in &ast.prods {
-            if p.symbols.len() > num_traits::cast(StorageT::max_value()).unwrap() {
+            let extra_syms = match implicit_tokens {
+                Some(_) => p
+                    .symbols
+                    .iter()
+                    .filter(|x| matches!(x, ast::Symbol::Token(_, _)))
+                    .count(),
+                None => 0,
+            };
+            if p.symbols.len() + extra_syms > max {
                 panic!(
                     "StorageT is not big enough to store the symbols of at least one of this grammar's productions."
                 );
